@@ -492,4 +492,10 @@ class RadialProfile(ProfileBase):
         """
         The raw data profile as a 1D `~numpy.ndarray`.
         """
-        return self._data_profile[1]
+        # apply the current normalization (1.0 if not normalized) so
+        # that a first read after ``normalize`` is consistent with a
+        # value that was cached (and rescaled) before it
+        data_profile = self._data_profile[1]
+        if self.normalization_value != 1.0:
+            data_profile = data_profile / self.normalization_value
+        return data_profile
